@@ -104,9 +104,11 @@ def explore(ctx):
     def hooked(spec):
         return any(c.get('savorize') is not None or c.get('recognize') is not None for c in spec)
     import itertools
+    from props import c17 as _c17
     for c in itertools.chain(LC.gen_cases(ctx, ctx.budget(500, 12000), mutate_p=0.25, model_filter=hooked, prop='C10'),
                              LC.class_key_faults(ctx, ctx.budget(150, 3000)),
-                             LC.alias_across_types(ctx, ctx.budget(20, 400))):
+                             LC.alias_across_types(ctx, ctx.budget(20, 400)),
+                             _c17.directed_hook_failures(ctx)):
         cases.append(c)
         LC.record_distribution(ctx, c)
         by = c.model.by_name_spec
@@ -140,6 +142,11 @@ def explore(ctx):
         if c.real_out[0] == 'other' and 'SeasoningError' in c.real_out[1]:
             ctx.violation('SeasoningError escaped instead of RecognitionError',
                           dict(L.describe(c), key='seasoningerror'))
+        elif c.real_out[0] == 'other' and any(op[0] == 'fail' for x in c.spec for op in (x.get('savorize') or [])) \
+                and any(e[0] == 'sav' for e in log):
+            # a hook that raises SeasoningError (with or without a message) ran: the load must end in RecognitionError
+            ctx.violation('a SeasoningError raised while savourising surfaces as {}'.format(c.real_out[1][:80]),
+                          dict(L.describe(c), key='seasoning-surfaces:' + c.real_out[1].split(':')[0]))
     LC.correspond(ctx, cases)
     explore_sweeten(ctx)
 
@@ -223,6 +230,7 @@ def explore_sweeten(ctx):
                           dict(key='sweeten-trace:' + repr(v)[:50], classes=model.source[-2500:], value=repr(v)[:300]))
     fixed_sweeten_findings(ctx, yaml, yatiml)
     shared_class_scenarios(ctx, yaml, yatiml)
+    same_named_base(ctx, yaml, yatiml)
 
 
 def fixed_sweeten_findings(ctx, yaml, yatiml):
@@ -340,6 +348,51 @@ def shared_class_scenarios(ctx, yaml, yatiml):
                                       [k.__name__ for k in regs], want),
                                   dict(key='shared-classes:{}:{}'.format(side, target.__name__),
                                        registered=[k.__name__ for k in regs], got=got, want=want))
+
+
+def same_named_base(ctx, yaml, yatiml):
+    """`class Shape(library.Shape)`: a registered class derived from an UNREGISTERED class of the same name
+    that has hooks of its own; only the registered classes' own hooks run"""
+    log = []
+
+    def hooks(label):
+        def sav(cls, node, _l=label):
+            log.append(('sav', _l))
+
+        def swe(cls, node, _l=label):
+            log.append(('swe', _l))
+        return {'_yatiml_savorize': classmethod(sav), '_yatiml_sweeten': classmethod(swe)}
+
+    def init(names):
+        src = 'def __init__(self, {}) -> None:\n{}'.format(
+            ', '.join(n + ': int' for n in names), ''.join('    self.{0} = {0}\n'.format(n) for n in names))
+        ns = {}
+        exec(src, ns)
+        return ns['__init__']
+    lib = type('Shape', (), dict(hooks('lib.Shape')))                      # never registered
+    mixin = type('Tracked', (), dict(hooks('Tracked')))                      # never registered
+    for bases in ((lib,), (mixin, lib), (lib, mixin)):
+        shape = type('Shape', bases, dict(hooks('Shape'), __init__=init(['a'])))
+        circle = type('Circle', (shape,), dict(hooks('Circle'), __init__=init(['a', 'r'])))
+        for regs, target, text, want in (([shape, circle], shape, '{a: 1, r: 2}', ['Shape', 'Circle']),
+                                         ([shape], shape, '{a: 1}', ['Shape']),
+                                         ([circle], circle, '{a: 1, r: 2}', ['Circle'])):
+            for side in ('sav', 'swe'):
+                del log[:]
+                try:
+                    if side == 'sav':
+                        yatiml.load_function(target, *regs)(text)
+                    else:
+                        yatiml.dumps_function(*regs)(circle(1, 2) if circle in regs else shape(1))
+                except Exception as e:  # noqa
+                    log.append((side, 'raised ' + type(e).__name__))
+                got = [x[1] for x in log if x[0] == side]
+                ctx.case(('same-named-base', side, len(bases), tuple(k.__name__ for k in regs)), nontrivial=True)
+                ctx.count('same_named_base')
+                if got != want:
+                    ctx.violation('{} hooks {} ran, the rule calls for {} (an unregistered base class has the name of a '
+                                  'registered class)'.format('savorize' if side == 'sav' else 'sweeten', got, want),
+                                  dict(key='same-named-base:' + side, got=got, want=want))
 
 
 def search(ctx, broken):
